@@ -40,6 +40,18 @@ def corpus_scripts(rng, n):
                     g.ops.append({"op": "deliver", "to": m, "msg": pid})
             c = rng.choice([m for m in g.in_group if m != u])
             g.ops.append({"op": "commit", "who": c, "id": g.fresh("c")})
+        # application messages delivered out of order: the receiver's snapshot then holds a message-key
+        # ratchet with skipped keys in its history (a hand-written codec with a map inside)
+        if len(g.in_group) >= 2 and k % 2 == 0:
+            snd = rng.choice(g.in_group)
+            aids = []
+            for _ in range(2 + rng.below(3)):
+                aid = g.fresh("a")
+                g.ops.append({"op": "app", "who": snd, "id": aid, "data": "00" * rng.below(5)})
+                aids.append(aid)
+            for m in g.in_group:
+                if m != snd and rng.chance(2, 3):
+                    g.ops.append({"op": "deliver", "to": m, "msg": aids[-1]})
         w = rng.choice(g.in_group)
         g.ops.append({"op": "group_info", "who": w, "id": g.fresh("gi"), "ext_commit": True, "tree_ext": rng.chance(1, 2)})
         scripts.append(g.script(dump_all=True))
